@@ -256,8 +256,19 @@ func (a *eofAnalysis) mayUnder(fn *ssa.Function, v ssa.Value, at ssa.Instruction
 		for _, pair := range [][2]ssa.Value{{f.X, f.Y}, {f.Y, f.X}} {
 			subj, other := pair[0], pair[1]
 			if subj != v {
-				// the fact may be about a value of which v is a phi input or the same source
-				continue
+				// the fact may be about a load of the location v was just stored to (the facts were collected on edges
+				// every writer-free path from the store to the load in question traverses)
+				same := false
+				if st, ok := at.(*ssa.Store); ok && st.Val == v {
+					if ld, ok := subj.(*ssa.UnOp); ok && ld.Op == token.MUL && dominatesInstr(st, ld) {
+						r1, s1 := accessPath(st.Addr)
+						r2, s2 := accessPath(ld.X)
+						same = r1 == r2 && s1 == s2
+					}
+				}
+				if !same {
+					continue
+				}
 			}
 			if f.Op == token.NEQ && isSentinel(other, "io", "EOF") {
 				return false
@@ -337,6 +348,24 @@ func (a *eofAnalysis) callMay(fn *ssa.Function, c *ssa.Call, idx int, seen map[e
 func (a *eofAnalysis) mayNoParams(fn *ssa.Function, v ssa.Value, at ssa.Instruction, seen map[eofKey]bool) bool {
 	if a.excludedByFacts(fn, v, at) {
 		return false
+	}
+	switch x := v.(type) {
+	case *ssa.Parameter:
+		return false
+	case *ssa.Call:
+		// judged through the callee's returns (its own branch facts apply there: noEOF(err) never hands io.EOF on)
+		return a.may(fn, v, at, seen)
+	case *ssa.Extract:
+		if _, ok := x.Tuple.(*ssa.Call); ok {
+			return a.may(fn, v, at, seen)
+		}
+	case *ssa.UnOp:
+		if x.Op == token.MUL {
+			if _, isG := x.X.(*ssa.Global); !isG {
+				// a field load: judged by its reaching stores under the branch facts on the way (err == io.EOF rewritten)
+				return a.may(fn, v, at, seen)
+			}
+		}
 	}
 	for _, leaf := range a.p.valueSources(v) {
 		if _, ok := leaf.(*ssa.Parameter); ok {
